@@ -4,9 +4,9 @@ The route table is read from the live APIRouters of openpectus.aggregator.router
 endpoint function, FastAPI's resolved dependencies).  Three obligations:
 
  * target_routes  -- every route whose path has a unit / engine / run parameter.  The real endpoint function is called
-   directly with the user's role set and the target's required-role set built from six solver bits over a 3-role
+   directly with the user's role set and the target's required-role set built from solver membership bits over a 3-role (thorough: 4-role)
    universe, a real `Aggregator` (recording fake dispatcher) holding the unit, in-memory fake repositories holding the
-   run.  A user who lacks every required role must be refused (HTTPException 401/403/404) with no rpc sent and no unit
+   run.  A user who lacks every required role must be refused (HTTPException 401/403, or 404 before any sub-resource is read) with no rpc sent and no unit
    state changed; a target that requires no role must not be refused with 401/403.  A route that has such a parameter
    but no `user_roles` dependency at all cannot refuse anybody: it is called with a target that requires a role and is
    reported by route when it hands out the target's data.
@@ -22,12 +22,11 @@ import re
 from symx.obligation import Obligation
 from props.agg_common2 import patched, Stepper
 
-ROLES = ["operator", "scientist", "admin"]
+ROLES = ["operator", "scientist", "admin", "service"]
 MARK = "Zq7"                      # substring of every string field of a target: recognises the target's data in a response
 UNIT, UNIT2, OFFLINE_UNIT, RUN, RUN2 = f"E1-{MARK}a", f"E2-{MARK}b", f"E3-{MARK}c", f"R1-{MARK}d", f"R2-{MARK}e"
 ROUTER_MODULES = ["process_unit", "recent_runs", "lsp"]
 TARGET_PARAM = re.compile(r"^(unit|engine|process_unit|run|recent_run)_id$")
-REFUSAL = (401, 403, 404)
 
 
 # ---------------------------------------------------------------------------------------------------
@@ -131,8 +130,12 @@ def _make_world(sym, unit_roles, run_roles):
             w.lookups.append("*")
             return super().get_all_registered_engine_data()
 
+    class WebPush:
+        async def publish_message(self, *a, **k):
+            return None
+
     d = datetime.datetime(2024, 1, 1, tzinfo=datetime.timezone.utc)
-    w.agg = RecAggregator(Dispatcher(), Publisher(), None)
+    w.agg = RecAggregator(Dispatcher(), Publisher(), WebPush())
     w.units = {}
     recent_engines = []
     for eid, req in unit_roles.items():
@@ -168,13 +171,37 @@ def _make_world(sym, unit_roles, run_roles):
             w.repo_calls.append(("get_recent_engines",))
             return list(recent_engines)
 
-        def __getattr__(self, name):            # sub-resources (run log, plot log ...): not stored
-            if name.startswith("get_"):
-                def getter(*a, **k):
-                    w.repo_calls.append((name,) + a)
-                    return None
-                return getter
-            raise AttributeError(name)
+        def get_method_and_state_by_run_id(self, run_id):
+            w.repo_calls.append(("get_method_and_state_by_run_id", run_id))
+            if run_id in runs:
+                return Db.RecentRunMethodAndState(
+                    run_id=run_id, state=Mdl.MethodState.empty(),
+                    method=Mdl.Method(lines=[Mdl.MethodLine(id="l1", content=f"Mark: {run_id}")], version=1, last_author=f"a-{run_id}"))
+
+        def get_plot_configuration_by_run_id(self, run_id):
+            w.repo_calls.append(("get_plot_configuration_by_run_id", run_id))
+            return Mdl.PlotConfiguration.empty() if run_id in runs else None
+
+        def get_run_log_by_run_id(self, run_id):
+            w.repo_calls.append(("get_run_log_by_run_id", run_id))
+            return Mdl.RunLog.empty() if run_id in runs else None
+
+        def get_error_log_by_run_id(self, run_id):
+            w.repo_calls.append(("get_error_log_by_run_id", run_id))
+            if run_id in runs:
+                log = Mdl.AggregatedErrorLog.empty()
+                log.aggregate_with(Mdl.ErrorLog(entries=[Mdl.ErrorLogEntry(message=f"err-{run_id}", created_time=1.0, severity=40)]))
+                return log
+
+        def get_plot_log(self, run_id):
+            w.repo_calls.append(("get_plot_log", run_id))
+            if run_id in runs or any(u.has_run() and u.run_data.run_id == run_id for u in w.units.values()):
+                entry = Db.PlotLogEntry(name=f"Tag-{run_id}", value_unit=None, value_type=Db.ProcessValueType.INT,
+                                        values=[Db.PlotLogEntryValue(tick_time=1.0, value_int=7, value_float=None, value_str=None)])
+                return Db.PlotLog(engine_id=f"eng-{run_id}", run_id=run_id, entries={entry.name: entry})
+
+        def __getattr__(self, name):
+            raise RuntimeError(f"C32 harness: fake repository has no method {name!r}")
 
     class Database:
         @staticmethod
@@ -218,7 +245,7 @@ def _arguments(entry, w, user_roles):
         if ann is fastapi.Response or name == "response":
             kwargs[name] = fastapi.Response()
         elif ann is Dto.ExecutableCommand or name == "command":
-            kwargs[name] = Dto.ExecutableCommand(command="Mark: A", source=Dto.CommandSource.MANUALLY_ENTERED)
+            kwargs[name] = Dto.ExecutableCommand(command="Start", source=Dto.CommandSource.UNIT_BUTTON)
         elif ann is Dto.Method or name == "method_dto":
             kwargs[name] = Dto.Method(lines=[Dto.MethodLine(id="l1", content="Mark: B")], version=1, last_author="USER")
         elif p.default is not inspect.Parameter.empty:
@@ -277,9 +304,10 @@ def harness_target(sym):
     import asyncio
     entry = route_table()[sym.shard["route"]]
     key = entry["key"]
-    required = _bits(sym, "target_requires_", 3)
+    nroles = sym.shard.get("roles", 3)
+    required = _bits(sym, "target_requires_", nroles)
     has_roles_param = entry["roles_param"] is not None
-    user_roles = _bits(sym, "user_has_", 3) if has_roles_param else []
+    user_roles = _bits(sym, "user_has_", nroles) if has_roles_param else []
     with sym.concrete():
         w = _make_world(sym, {UNIT: required}, {RUN: required})
         kwargs = _arguments(entry, w, set(user_roles))
@@ -293,8 +321,12 @@ def harness_target(sym):
     touched = bool(w.lookups or w.repo_calls)
     outcome = f"HTTP {val}" if kind == "http" else ("a response" if kind == "ok" else f"{type(val).__name__}")
     shape = f"{key}: target requires {required}, user has {user_roles if has_roles_param else '(route takes no roles)'} -> {outcome}"
+    if kind == "http" and val == 404 and len(required) == 0:
+        raise RuntimeError(f"C32 harness: fixture incomplete, {key} answers 404 for an existing open target")
     if lacks_every_role:
-        refused = kind == "http" and val in REFUSAL
+        # 404 ("no such target") is a refusal only if nothing but the target's own record was looked at
+        only_target_record = all(c[0] == "get_by_run_id" for c in w.repo_calls)
+        refused = kind == "http" and (val in (401, 403) or (val == 404 and only_target_record))
         if not has_roles_param:
             sym.check(refused or not touched, f"no-role-check|route={key}",
                       f"{shape}; the endpoint has no user_roles dependency and serves the target to everybody")
@@ -314,8 +346,9 @@ def harness_listing(sym):
     import asyncio
     entry = route_table()[sym.shard["route"]]
     key = entry["key"]
-    user_roles = _bits(sym, "user_has_", 2)
-    reqs = [_bits(sym, f"target{t}_requires_", 2) for t in range(2)]
+    nroles = sym.shard.get("roles", 2)
+    user_roles = _bits(sym, "user_has_", nroles)
+    reqs = [_bits(sym, f"target{t}_requires_", nroles) for t in range(2)]
     targets = sym.shard["targets"]
     with sym.concrete():
         unit_roles = {t: reqs[i] for i, t in enumerate(targets) if t.startswith("E")}
@@ -345,7 +378,7 @@ def harness_lsp(sym):
     import openpectus.aggregator.deps as agg_deps
     name = sym.shard["fn"]
     fn = lsp_entry_points()[name]
-    required = _bits(sym, "target_requires_", 3)
+    required = _bits(sym, "target_requires_", sym.shard.get("roles", 3))
     with sym.concrete():
         w = _make_world(sym, {UNIT: required}, {})
         kwargs = {}
@@ -370,28 +403,29 @@ def harness_lsp(sym):
 
 
 def _target_shards(tier):
-    return [{"route": k} for k, e in sorted(route_table().items()) if e["targets"]]
+    return [{"route": k, "roles": 3 if tier == "quick" else 4} for k, e in sorted(route_table().items()) if e["targets"]]
 
 
 def _listing_shards(tier):
     out = []
+    nroles = 2 if tier == "quick" else 3
     for k, e in sorted(route_table().items()):
         if e["targets"] or e["roles_param"] is None:
             continue
         if e["module"].__name__.endswith("recent_runs"):
-            out.append({"route": k, "targets": [RUN, RUN2]})
+            out.append({"route": k, "targets": [RUN, RUN2], "roles": nroles})
         else:
-            out.append({"route": k, "targets": [UNIT, UNIT2]})
-            out.append({"route": k, "targets": [UNIT, OFFLINE_UNIT]})
+            out.append({"route": k, "targets": [UNIT, UNIT2], "roles": nroles})
+            out.append({"route": k, "targets": [UNIT, OFFLINE_UNIT], "roles": nroles})
     return out
 
 
 def _lsp_shards(tier):
-    return [{"fn": n} for n in sorted(lsp_entry_points())]
+    return [{"fn": n, "roles": 3 if tier == "quick" else 4} for n in sorted(lsp_entry_points())]
 
 
 _COMMON = ["real Aggregator/FromFrontend over a fake dispatcher (records rpc_call, answers success) and a fake FrontendPublisher; asyncio.create_task is a no-op",
-           "RecentRunRepository / PlotLogRepository / RecentEngineRepository / database replaced by in-memory rows (real SQLAlchemy row classes, no session); sub-resources of a run are absent (404 when access is granted)",
+           "RecentRunRepository / PlotLogRepository / RecentEngineRepository / database replaced by in-memory rows (real SQLAlchemy row classes, no session); every sub-resource of a run is present",
            "endpoint functions called directly with the values FastAPI would inject (dependencies resolved from route.dependant)",
            "role sets are concrete per path, chosen through solver membership bits",
            "a request that is answered without looking up the target at all (no aggregator or repository access) is not counted as reading its data",
@@ -403,9 +437,9 @@ OBLIGATIONS = [
         cpu_budget={"quick": 80.0, "thorough": 600.0},
         encoded=["openpectus.aggregator.routers.process_unit", "openpectus.aggregator.routers.recent_runs",
                  "openpectus.aggregator.routers.lsp:get_pcode_tm_grammar", "openpectus.aggregator.routers.auth:has_access"],
-        symbolic="3 membership bits for the user's roles and 3 for the target's required roles (3-role universe)",
-        bounds={"quick": "every live route with a unit/engine/run path parameter x all 64 role assignments",
-                "thorough": "same (the bound is already complete for the 3-role universe)"},
+        symbolic="one membership bit per role for the user's roles and one per role for the target's required roles",
+        bounds={"quick": "every live route with a unit/engine/run path parameter x all 64 role assignments of a 3-role universe",
+                "thorough": "same routes x all 256 role assignments of a 4-role universe"},
         assumptions=_COMMON),
     Obligation(
         name="listing_routes", kind="crosshair", harness=harness_listing, shards=_listing_shards,
@@ -413,17 +447,24 @@ OBLIGATIONS = [
         encoded=["openpectus.aggregator.routers.process_unit:get_units",
                  "openpectus.aggregator.routers.process_unit:get_all_process_values_of_all_available_engines",
                  "openpectus.aggregator.routers.recent_runs:get_recent_runs", "openpectus.aggregator.routers.auth:has_access"],
-        symbolic="2 membership bits for the user, 2 for each of two targets (2-role universe)",
-        bounds={"quick": "every live listing route, two targets (two online units / an online and an offline unit / two runs), all 64 role assignments",
-                "thorough": "same"},
+        symbolic="one membership bit per role for the user and for each of two targets",
+        bounds={"quick": "every live listing route, two targets (two online units / an online and an offline unit / two runs), all 64 role assignments of a 2-role universe",
+                "thorough": "same, all 512 role assignments of a 3-role universe"},
         assumptions=_COMMON),
     Obligation(
         name="lsp_entry_points", kind="crosshair", harness=harness_lsp, shards=_lsp_shards,
         cpu_budget={"quick": 60.0, "thorough": 300.0},
         encoded=["openpectus.lsp.lsp_analysis:fetch_uod_info", "openpectus.lsp.lsp_analysis:fetch_process_value",
                  "openpectus.lsp.lsp_analysis:fetch_simulated_tags"],
-        symbolic="3 membership bits for the unit's required roles",
-        bounds={"quick": "every function of lsp_analysis that takes an engine_id and reads the aggregator, all required-role sets",
-                "thorough": "same"},
+        symbolic="one membership bit per role for the unit's required roles",
+        bounds={"quick": "every function of lsp_analysis that takes an engine_id and reads the aggregator, all required-role sets over 3 roles",
+                "thorough": "same over 4 roles"},
         assumptions=_COMMON + ["the websocket endpoint /lsp/websocket itself carries no engine id; lint/hover/completion reach unit data only through these functions"]),
 ]
+
+MANIFEST = {
+    "level": "model_checking",
+    "text": "Route table read from the live APIRouters at run time; every endpoint function with a unit/engine/run parameter, every listing endpoint and every aggregator-reading entry point of the LSP analysis module is executed symbolically (CrossHair/z3) with the user's and the target's role sets built from solver membership bits over a small role universe; exhaustive over all role assignments for every route.",
+    "note": "Trusted: CrossHair bool model, z3, FastAPI's resolved dependency table, the in-memory repository fakes and the recording dispatcher. Endpoint functions are called directly (FastAPI's own request parsing/JWT decoding is outside the claim). Role universe of 3 (quick) / 4 (thorough) roles, for listings 2 / 3; one target per request (two for listings).",
+    "technique": "symbolic execution of the real endpoint functions (CrossHair + z3) over a route table extracted at run time, exhaustive over role bits, counterexample replay",
+}
